@@ -79,8 +79,8 @@ CHECKS = {
         "pkg": "c09",
         "level": "exploration",
         "tests": [
-            T("TestC09Codec", (900, 4), (8000, 16)),
-            T("TestC09Views", (1000, 4), (8000, 16)),
+            T("TestC09Codec", (900, 4), (6000, 16)),
+            T("TestC09Views", (1000, 4), (6000, 16)),
         ],
         "fuzz": [{"name": "FuzzC09Codec", "time": "90s"}],
         "required_classes": ["codec/bits=0", "codec/bits=1", "codec/bits=2", "codec/bits=3", "codec/bits=4", "codec/bits=5", "codec/bits=6", "codec/bits=7", "codec/bits=8", "codec/bits=9",
